@@ -1,3 +1,38 @@
-From TM Require Import Base Frame.
-Theorem C13_placeholder : fc_value (fc_new 1) = 1.
-Proof. reflexivity. Qed.
+(* C13 -- transport faults surface as transport errors, never as data. *)
+From TM Require Import Base Frame Pdu RtuCodec Framed Client FramedProofs FramedMore ClientProofs Histories.
+
+(* end of stream or a read error after ANY proper prefix of the reply (any chunking) *)
+Theorem C13_read_fault : forall p m st req bg f i cs tl w bg1 (e : revt),
+  framed st = true -> clean st -> reof (rst st) = false -> rreadable (rst st) = false ->
+  send (client_enc p m (req_hdr p st) req) (wio_ st) bg = (SOk, w, bg1, false) ->
+  client_valid p f i -> Forall nonempty cs -> proper_prefix (concat cs) f ->
+  rq st = datas cs ++ e :: tl -> (e = REof \/ exists k, e = RErr k) ->
+  exists k, fst (call p m st req bg) = CRTransport k.
+Proof. exact read_fault_is_transport_error. Qed.
+
+(* an orderly end of stream before any reply byte denotes a closed connection *)
+Theorem C13_eof_is_broken_pipe : forall p m st req bg tl w bg1,
+  framed st = true -> clean st -> reof (rst st) = false -> rreadable (rst st) = false ->
+  send (client_enc p m (req_hdr p st) req) (wio_ st) bg = (SOk, w, bg1, false) ->
+  rq st = REof :: tl -> client_dec p [] = ([], DNone) ->
+  fst (call p m st req bg) = CRTransport KBrokenPipe.
+Proof. exact eof_is_broken_pipe. Qed.
+
+(* a write error / zero-length write at any offset: transport error, and what the transport accepted
+   plus what is still buffered is exactly what was offered (so the accepted bytes are a prefix) *)
+Theorem C13_write_fault : forall p m st req bg k w bg1,
+  framed st = true ->
+  send (client_enc p m (req_hdr p st) req) (wio_ st) bg = (SErr k, w, bg1, false) ->
+  fst (call p m st req bg) = CRTransport k
+  /\ exists fr, (fr = [] \/ client_enc p m (req_hdr p st) req = Val fr)
+                /\ accepted w ++ wbuf w = accepted (wio_ st) ++ wbuf (wio_ st) ++ fr.
+Proof. exact write_fault_is_transport_error. Qed.
+
+(* piecewise / intermittent writes: for EVERY write script (any granularity, any pending pattern) the
+   bytes handed to the transport plus the bytes still buffered are conserved, and a successful send
+   has handed over everything, once and in order *)
+Theorem C13_write_pieces : forall frame w bg r w' bg' pn,
+  send frame w bg = (r, w', bg', pn) ->
+  exists fr, (fr = [] \/ frame = Val fr) /\ accepted w' ++ wbuf w' = accepted w ++ wbuf w ++ fr
+             /\ (r = SOk -> pn = false -> frame = Val fr /\ wbuf w' = []) /\ r <> SWait.
+Proof. exact send_conserve. Qed.
